@@ -583,6 +583,14 @@ def call_ext(it: Any, f: ExtV, args: List[Any], kwargs: Dict[str, Any], node: An
         if short == "methodcaller" and args and isinstance(args[0], str):
             mname, pre_a, pre_k = args[0], list(args[1:]), dict(kwargs)
             return A._Builtin("methodcaller", lambda it2, a, k, nd: it2.call_function(it2.lift(lambda x_: it2.getattr(x_, mname, nd), a[0]), pre_a, pre_k, nd))
+    # ---- function spellings of the tensor operators (same folding / typestate as the operator forms)
+    TORCH_BINOPS = {"torch.add": "Add", "torch.sub": "Sub", "torch.subtract": "Sub", "torch.mul": "Mult", "torch.multiply": "Mult", "torch.div": "Div", "torch.true_divide": "Div",
+                    "torch.floor_divide": "FloorDiv", "torch.bitwise_and": "BitAnd", "torch.bitwise_or": "BitOr", "torch.bitwise_xor": "BitXor",
+                    "torch.bitwise_left_shift": "LShift", "torch.bitwise_right_shift": "RShift", "torch.pow": "Pow", "torch.remainder": "Mod"}
+    if name in TORCH_BINOPS and len(args) == 2 and not kwargs and name not in torchsig.SIGS and any(isinstance(a_, TV) and a_.const is not None for a_ in args):
+        import ast as _ast
+
+        return it.binop(getattr(_ast, TORCH_BINOPS[name])(), args[0], args[1], node)
     if name == "functools.reduce" and len(args) >= 2:
         seq = it.concrete_iter(args[1])
         if seq is None:
